@@ -2,7 +2,8 @@
 # usage: ./run.sh <property> quick|thorough            run the check (rebuilds from /repo's working tree)
 #        ./run.sh <property> replay <file>             re-run one recorded execution
 set -u
-cd /verif
+root="$(cd "$(dirname "${BASH_SOURCE[0]}")" && pwd)"   # /verif, or a snapshot of it (vp run)
+cd "$root"
 . ./env.sh
 prop="$1"; mode="${2:-quick}"
 mkdir -p .work bin
@@ -26,14 +27,14 @@ if [ "$prop" = "C17" ]; then
   repo_dir="${VERIF_REPO:-/repo}"
   nshim=$(python3 tools/mk_overlay.py "$repo_dir" ".work/ov-$$" 2>/dev/null || echo 0)
   if [ "$nshim" -ge 1 ] && go build $modflag -tags verifshim -overlay ".work/ov-$$/overlay.json" -o ".work/check-shim-$$" ./cmd/check 2> ".work/shimbuild-$$.log"; then
-    export VERIF_SHIM_BIN="/verif/.work/check-shim-$$"
+    export VERIF_SHIM_BIN="$root/.work/check-shim-$$"
   fi
   rm -f ".work/shimbuild-$$.log"
 fi
 if [ "$prop" = "C17" ] && [ "$mode" != "replay" ]; then
   # the free-running race pass needs the -race twin, rebuilt from the current tree
   # (its own file per invocation: concurrent runs against other trees must not share it)
-  if go build $modflag -race -o ".work/check-race-$$" ./cmd/check 2>/dev/null; then export VERIF_RACE_BIN="/verif/.work/check-race-$$"; fi
+  if go build $modflag -race -o ".work/check-race-$$" ./cmd/check 2>/dev/null; then export VERIF_RACE_BIN="$root/.work/check-race-$$"; fi
 fi
 case "$mode" in
   quick|thorough) "$exe" -prop "$prop" -tier "$mode"; rc=$? ;;
